@@ -56,21 +56,24 @@ def rowsCols (nleaves : Nat) (rs : List Elem) : List (List Nat) :=
 /-! ## ledger (exactly-once ownership, as the harness counts it) -/
 
 structure Ledger where
-  created : List Nat := []
-  dropped : List Nat := []
+  created : Array Nat := Array.replicate 512 0   -- per (masked) id: how many were created
+  dropped : Array Nat := Array.replicate 512 0   -- … and destroyed
   doubleDrop : Bool := false
 
-def count (x : Nat) (xs : List Nat) : Nat := (xs.filter (· == x)).length
+def bump (a : Array Nat) (i : Nat) : Array Nat := a.modify i (· + 1)
 
 def Ledger.add (cx : Ctx) (l : Ledger) (made : List Nat) (ev : Ev) : Ledger :=
   let tracked (i : Nat) : Bool := cx.kindOf i != 'p'
-  let created := l.created ++ ((made ++ ev.clones).filter tracked).map cx.maskId
-  let dropped := l.dropped ++ (ev.drops.filter tracked).map cx.maskId
-  let dd := l.doubleDrop || dropped.any (fun i => count i dropped > count i created)
+  let cr := ((made ++ ev.clones).filter tracked).map cx.maskId
+  let dr := (ev.drops.filter tracked).map cx.maskId
+  let created := cr.foldl bump l.created
+  let dropped := dr.foldl bump l.dropped
+  -- a value is destroyed more often than it was created: only the ids destroyed in this step can newly be so
+  let dd := l.doubleDrop || dr.any (fun i => dropped.getD i 0 > created.getD i 0)
   { created, dropped, doubleDrop := dd }
 
 def Ledger.leak (l : Ledger) : Bool :=
-  (l.created ++ l.dropped).any (fun i => count i l.created != count i l.dropped)
+  (List.range l.created.size).any (fun i => l.created.getD i 0 != l.dropped.getD i 0)
 
 /-! ## worlds -/
 
